@@ -521,9 +521,9 @@ class G:
             t = [self.kw("allocate"), "("]
             if self.p(0.2):
                 t += [self.kw("real"), "::"]
-            t += [self.ch(ARR_NAMES), "("] + self.int_expr() + [")"]
+            t += [self.ch(ARR_NAMES), "("] + self.alloc_shape() + [")"]
             if self.p(0.3):
-                t += [",", self.ch(ARR_NAMES), "("] + self.int_expr() + [",", ] + self.int_expr() + [")"]
+                t += [",", self.ch(ARR_NAMES), "("] + self.alloc_shape() + [",", ] + self.alloc_shape() + [")"]
             opt = self.rng.random()
             f08 = False
             if opt < 0.25:
@@ -661,6 +661,10 @@ class G:
         else:
             t = [self.kw("end")] + [self.kw(x) for x in w]
         if name and (force_name or self.p(0.7)):
+            if self.p(0.15) and name.lower() != name.upper():
+                # names are case-insensitive: the END name spelled in another case
+                name = self.ch([name.upper(), name.lower(), name.swapcase()])
+                self.hit("end-name-other-case")
             t.append(name)
         return t
 
@@ -680,6 +684,18 @@ class G:
                     out.append(St([self.kw(self.ch(["cycle", "exit"]))]))
                     self.hit("s:cycle-exit")
         return out
+
+    def alloc_shape(self):
+        """one allocate-shape-spec: upper bound, or lower:upper with bounds that contain
+        parenthesised groups (function references, parentheses)"""
+        r = self.rng.random()
+        if r < 0.55:
+            return self.int_expr()
+        self.hit("s:allocate-lower-bound")
+        lo = self.ch([["0"], ["-", "1"], ["lbound", "(", self.ch(ARR_NAMES), ",", "1", ")"], ["(", "m", "-", "1", ")", "*", "2"],
+                      ["min", "(", "i", ",", "j", ")"], ["n"]])
+        hi = self.ch([self.int_expr(), ["ubound", "(", self.ch(ARR_NAMES), ",", "1", ")"], ["(", "n", "+", "1", ")"]])
+        return lo + [":"] + hi
 
     def maybe_cname(self):
         return self.new_cname() if self.p(0.3) else None
@@ -1062,7 +1078,11 @@ class G:
                           "/", "4", "*", "0", "/"],
                          ["(", "vec", "(", "i", ")", ",", "tab_x", "(", "i", ")", ",", "i", "=", "n", ",", "1", ",", "-", "1", ")", "/", "two", "*", "1.0", "/"],
                          ["x", ",", "y", "/", "2", "*", "0.0", "/", "zz", "/", ".true.", "/"],
-                         ["a", "/", "-", "1.5e0", "/", ",", "b", "/", "+", "2", "/"]])
+                         ["a", "/", "-", "1.5e0", "/", ",", "b", "/", "+", "2", "/"],
+                         # three and more sets, with and without the optional commas between them
+                         ["a", "/", "1", "/", "b", "/", "2", "/", "x", "/", "3", "/"],
+                         ["a", "/", "1", "/", ",", "b", "/", "2", "/", ",", "x", "/", "3", "/", ",", "y", "/", "4", "/"],
+                         ["a", "/", "1", "/", ",", "b", "/", "2", "/", "x", ",", "y", "/", "2", "*", "3", "/"]])
             return St([self.kw("data")] + v)
         if r < 0.31:
             self.hit("d:common")
